@@ -259,6 +259,8 @@ type Path struct {
 	pendingBug   any
 	schedForks   bool
 	quiescing    bool
+	preemptBound bool
+	preemptLeft  int
 	yieldForks   bool
 	inInit       int
 	nchecks      int
@@ -268,6 +270,7 @@ type Path struct {
 	ctMemo       map[*Term]bool
 	notes        []string
 	lockMon      func(g *Goroutine, key *Value, kind byte)
+	race         *raceMon
 }
 
 func (p *Path) abort(status, msg string) {
